@@ -102,7 +102,7 @@ def main():
             props_filter = set(args.pop(0).split(","))
     results = []
     for name, rel, old, new, props in MUTANTS:
-        if only and only not in name:
+        if only and not any(o in name for o in only.split(",")):
             continue
         if props_filter and not (set(props) & props_filter):
             continue
